@@ -298,6 +298,10 @@ func c18GenManifest(t *rapid.T, allowInvalidUTF8 bool) manifest.Manifest {
 		FolderCount: rapid.IntRange(0, 1<<31-1).Draw(t, "dc"),
 		Items:       []manifest.FileItem{},
 	}
+	if allowInvalidUTF8 && rapid.IntRange(0, 2).Draw(t, "raw_root") == 0 {
+		// the name of the sent folder is a file name like any other: bytes, not necessarily UTF-8
+		m.Root = rapid.SampledFrom([]string{"M\xe4rz-Fotos", "\xff", "caf\xe9\xe8", "ok\xc3", "\xed\xa0\x80x"}).Draw(t, "root_bytes")
+	}
 	for i := 0; i < n; i++ {
 		p := c18RelPath(t)
 		if !allowInvalidUTF8 && !utf8.ValidString(p) {
